@@ -144,19 +144,15 @@ def strip_strings(in_line: str, maintain_len: bool = False) -> str:
         Stripped string
     """
 
-    def repl_sq(m):
-        return "'{}'".format(" " * (len(m.group()) - 2))
+    def repl(m):
+        quote = m.group()[0]
+        return "{0}{1}{0}".format(quote, " " * (len(m.group()) - 2))
 
-    def repl_dq(m):
-        return '"{}"'.format(" " * (len(m.group()) - 2))
-
+    # A single left to right pass, so that an apostrophe inside a "..." literal
+    # (or a double quote inside a '...' literal) does not open a literal itself
     if maintain_len:
-        out_line = FRegex.SQ_STRING.sub(repl_sq, in_line)
-        out_line = FRegex.DQ_STRING.sub(repl_dq, out_line)
-    else:
-        out_line = FRegex.SQ_STRING.sub("", in_line)
-        out_line = FRegex.DQ_STRING.sub("", out_line)
-    return out_line
+        return FRegex.ANY_STRING.sub(repl, in_line)
+    return FRegex.ANY_STRING.sub("", in_line)
 
 
 def separate_def_list(test_str: str) -> list[str] | None:
